@@ -11,7 +11,7 @@ VERIF = os.path.dirname(os.path.dirname(os.path.abspath(__file__)))
 
 INTRO = """### 12.6 Seeded changes: which check catches which change
 
-Three rounds. In each, one fresh sub-agent per property was given only the property text and its own scratch worktree
+Four rounds. In each, one fresh sub-agent per property was given only the property text and its own scratch worktree
 (nothing from /verif) and asked for a realistic change that breaks the property, compiles, passes the 137 tests and
 needs something specific to manifest; in round 2 the agent was additionally told which site round 1 had used and to
 find a different mechanism (preferably an interplay of two features: a cache with a second occurrence, an option with
@@ -55,6 +55,18 @@ change exposed a genuine defect (grouped ORDER BY is not a total order; unsorted
 remark of the C15 agent another (an integer column compared with `11.6` reads the literal as 0: F47); the C20 extension
 exposed an error in the check's own oracle before it was ever committed (DESIGN 7).
 
+Round 4 was run on the REPAIRED tree (at f10c681, some 115 `fix:` commits after the pinned one), with the three earlier
+sites of each property named as used up and a careless simplification of a recent repair explicitly allowed: 20 changes,
+14 caught by the checks as they stood (C02, C03, C04, C05, C06, C07, C08, C09, C11, C12, C13, C14, C16, C20), 6 missed
+and caught after strengthening. Two of the six were caught by ANOTHER property's check than the one the agent had been
+given (C01's change needs `symlinks`: C18; C15's needs operators without blanks: C11 after an extension), which is how
+the properties divide the ground. The four real gaps were again shapes the generators had left out on purpose or by
+habit: bracketed operands in a long chain (C10), a directory that can be listed but not searched (C17), looping links
+with ABSOLUTE targets together with an exemption of every tree that has a looping link (C18), `is_file` of an archive
+member (C19). Several of the caught changes were "simplifications" of this session's own repairs (the balanced AND/OR
+chain, the rounding of scaled size literals, `lstat` identity of directories, the comma rule after BY): the checks that
+motivated those repairs hold them in place.
+
 Re-judging on the tree as repaired (after some ninety `fix:` commits; `python3-vt -m fsv.seedall`, results in
 `sensitivity/seedall-*.json`): 42 of the 60 patches still applied and all but two of them were caught by the
 search-only quick checks; the two that "held" (`C02-v2-shared-operand-map`, `C05-v2-date-before-numeric-key`) are
@@ -64,7 +76,7 @@ to the current code (same fault, same place or its nearest successor; originals 
 caught as the checks stood, one missed (`C19-member-error-aborts-directory`, see its row) and caught after C19's
 corruption enumeration was extended.
 
-Over the three rounds: 60 changes, 33 caught by the checks as they stood at the time, 27 missed and all 27 caught after
+Over the four rounds: 80 changes, 47 caught by the checks as they stood at the time, 33 missed and all 33 caught after
 a generator or oracle extension; no check was loosened, and every extension was re-run on the unchanged tree.
 """
 
